@@ -393,6 +393,7 @@ func wireMain() {
 			s = streams[t%len(streams)]
 		}
 		db := openDB()
+		fmt.Fprintln(out, "# trace wire")
 		h := server.VerifHandlers(db)
 		conns := []*wireConn{{id: 1}, {id: 2}}
 		g := newWireGen(rnd, s)
@@ -415,12 +416,23 @@ func wireScript(path string) {
 		os.Exit(2)
 	}
 	db := openDB()
-	defer db.Close()
+	fmt.Fprintln(out, "# trace wire")
+	defer func() { db.Close() }()
 	h := server.VerifHandlers(db)
 	conns := []*wireConn{{id: 1}, {id: 2}}
 	for _, line := range strings.Split(string(data), "\n") {
 		line = strings.TrimSpace(line)
 		if line == "" || strings.HasPrefix(line, "#") {
+			continue
+		}
+		if strings.HasPrefix(line, "---") {
+			// a new trace: fresh database, fresh connections
+			out.Flush()
+			db.Close()
+			db = openDB()
+			h = server.VerifHandlers(db)
+			conns = []*wireConn{{id: 1}, {id: 2}}
+			fmt.Fprintln(out, "# trace script wire")
 			continue
 		}
 		fields := strings.Fields(line)
@@ -487,6 +499,7 @@ func wireEnum(stream string, shard, traces, length, conns int) {
 			break
 		}
 		db := openDB()
+		fmt.Fprintln(out, "# trace wire")
 		h := server.VerifHandlers(db)
 		cs := []*wireConn{{id: 1}, {id: 2}}
 		for i := 0; i < len(g.setup)+len(g.enum); i++ {
